@@ -293,6 +293,53 @@ fn queue_thresholds(what: &str, tier: &str) -> Vec<String> {
     v
 }
 
+/// Programs that flush through the queuing sink (on handles and clones, with a backlog behind a
+/// blocked wrapped sink, concurrently with producers). `what` selects the family a property needs.
+fn queue_flush_programs(what: &str, tier: &str) -> Vec<String> {
+    let th = tier == "thorough";
+    let mut v = vec![];
+    match what {
+        // single-threaded histories with flushes in between, counters read at quiescent points
+        "seq" => {
+            for cap in ["u", "2"] {
+                for sc in ["", "e", "p", "oe"] {
+                    for prog in ["F0QR", "E0F0QR", "E0E0F0QRE0F0QR", "E0QF0F0RE0F0QR", "C0E0F1E1F0QRD1F0QR", "E0F0W", "E0E0F0E0W"] {
+                        v.push(format!("queue:cap={}:script={}:prog={}", cap, sc, prog));
+                    }
+                    v.push(format!("queue:cap={}:script={}:ff=1:prog=E0F0QRE0F0W", cap, sc));
+                }
+            }
+        }
+        // a flush while the worker is blocked inside the wrapped sink and later metrics wait in the queue
+        "backlog" => {
+            for cap in ["u", "3"] {
+                for sc in ["b", "be", "bee", "boe", "beo", "bp", "bep"] {
+                    for order in ["hc", "ch"] {
+                        v.push(format!("queue:cap={}:script={}:order={}:prog=E0E0E0F0OW", cap, sc, order));
+                        v.push(format!("queue:cap={}:script={}:order={}:prog=E0E0F0E0F0OQR", cap, sc, order));
+                    }
+                    v.push(format!("queue:cap={}:script={}:h=0:prog=E0E0E0F0OW", cap, sc));
+                }
+            }
+        }
+        // flushes racing with the worker and with producers
+        _ => {
+            let pb = if th { 3 } else { 2 };
+            for cap in ["u", "2"] {
+                for sc in ["", "e", "oe", "p"] {
+                    v.push(format!("queue:cap={}:script={}:prog=E0E0F0W:sy=1:P={}", cap, sc, pb));
+                    v.push(format!("queue:cap={}:script={}:prog=E0E0E0F0QR:P={}", cap, sc, pb));
+                    for pr in ["EF", "EEF,E", "EF,EF", "F,EE"] {
+                        v.push(format!("queue:cap={}:script={}:prog=SJWQR:prod={}:P={}", cap, sc, pr, if pr.contains(',') { 2 } else { pb }));
+                    }
+                    v.push(format!("queue:cap={}:script={}:prog=SF0JW:prod=EE:sy=1:P={}", cap, sc, pb));
+                }
+            }
+        }
+    }
+    v
+}
+
 fn c08(tier: &str) -> Vec<String> {
     let th = tier == "thorough";
     let mut v = vec![];
@@ -345,6 +392,14 @@ fn c08(tier: &str) -> Vec<String> {
                 v.push(format!("queue:cap={}:prog={}:prod={}:P={}", cap, prog, pr, p));
             }
         }
+        // with a scheduling point inside the wrapped sink: is it ever entered twice at once?
+        for pr in ["E,E", "EE,E", "EE,EE"] {
+            v.push(format!("queue:cap={}:prog=SJW:prod={}:sy=1:P=2", cap, pr));
+            v.push(format!("queue:cap={}:script=p:prog=SJW:prod={}:sy=1:P=2", cap, pr));
+        }
+    }
+    for fam in ["seq", "backlog", "race"] {
+        v.extend(queue_flush_programs(fam, tier));
     }
     v
 }
@@ -482,6 +537,10 @@ fn c15(tier: &str) -> Vec<String> {
             v.push(format!("queue:cap={}:script={}:prog=RE0RE0RQR", cap, sc));
         }
     }
+    // a flush is not a metric: counters after flushes, with a backlog, and with racing flushes
+    for fam in ["seq", "backlog", "race"] {
+        v.extend(queue_flush_programs(fam, tier));
+    }
     v
 }
 
@@ -511,6 +570,10 @@ fn c16(tier: &str) -> Vec<String> {
         for order in ["hc", "ch"] {
             v.push(format!("queue:cap=2:script={}:ff=1:order={}:prog=E0E0W", sc, order));
         }
+    }
+    // a flush through the queuing sink never moves the handler (or the wrapped sink) to the caller
+    for fam in ["seq", "backlog", "race"] {
+        v.extend(queue_flush_programs(fam, tier));
     }
     v
 }
